@@ -158,9 +158,10 @@ def _check_extraction(ck, h, rec):
         v = resolve_local(h, s_.ast.value)
         in_handler = any(isinstance(a, ast.ExceptHandler) for a in q.ancestors(pm, s_.ast))
         if in_handler:
-            if isinstance(v, (ast.Name, ast.Call, ast.Attribute)):
+            const_format = isinstance(v, ast.Call) and isinstance(v.func, ast.Attribute) and v.func.attr == "format" and isinstance(v.func.value, ast.Constant) and isinstance(v.func.value.value, str)
+            if isinstance(v, (ast.Name, ast.Call, ast.Attribute)) and not const_format:
                 raise AnalysisError("format(): the fallback message %s is not built in place (not followed)" % q.unparse(v)[:60])
-            ok = isinstance(v, (ast.JoinedStr, ast.Constant)) or (isinstance(v, ast.BinOp) and isinstance(v.op, ast.Mod) and isinstance(v.left, ast.Constant))
+            ok = const_format or isinstance(v, (ast.JoinedStr, ast.Constant)) or (isinstance(v, ast.BinOp) and isinstance(v.op, ast.Mod) and isinstance(v.left, ast.Constant))
             ck.ob("C45.message-set", h, s_.ast, ok, "the fallback message is built by plain string formatting of reprs (nothing that re-applies the caller's format)")
         else:
             calls = [c for c in q.calls(s_.ast) if q.call_attr(c) not in ("_safe_unicode", "str", "repr")]
